@@ -29,7 +29,7 @@ class Session:
         self.gen_arrays = []       # stored sample arrays in order of first appearance
 
     def operand(self, ref):
-        return self.objs[ref[1]] if ref[0] == "obj" else ref[1]
+        return self.objs[ref[1]] if ref[0] == "obj" else CL.typed_number(ref[1], ref[2] if len(ref) > 2 else None)
 
     def gen_of(self, k):
         """generation of the stored sample set: identity of the array object (kept alive here so that ids are not reused)"""
@@ -72,11 +72,19 @@ class Session:
                     self.kinds.append("der")
                     out = ["none"]
                 elif t == "set_value":
-                    self.objs[op[1]].value = op[2]
+                    self.objs[op[1]].value = CL.typed_number(op[2], op[3] if len(op) > 3 else None)
                     out = ["none"]
                 elif t == "set_error":
-                    self.objs[op[1]].error = op[2]
+                    self.objs[op[1]].error = CL.typed_number(op[2], op[3] if len(op) > 3 else None)
                     out = ["none"]
+                elif t == "bad_method":
+                    # an invalid method selection: must be rejected and change nothing
+                    bad = {"str": "montecarlo", "int": 1, "none": None, "float": 0.5}[op[2]]
+                    if op[1] is None:
+                        q.set_error_method(bad)
+                    else:
+                        self.objs[op[1]].error_method = bad
+                    out = ["accepted-invalid"]
                 elif t == "set_corr":
                     q.set_correlation(self.objs[op[1]], self.objs[op[2]], op[3])
                     out = ["none"]
@@ -171,6 +179,7 @@ def gen_history(rng, n_ops, mc_share=0.25, rational=True, seeds=False):
         kinds.append("meas")
         errs.append(e)
     exponents = set()                        # measurements used as exponents: they keep whole values
+    frozen = set()                           # measurements under a square root: their central values stay as they are
 
     def meas_ids():
         return [i for i, k in enumerate(kinds) if k == "meas"]
@@ -197,7 +206,7 @@ def gen_history(rng, n_ops, mc_share=0.25, rational=True, seeds=False):
                 b, x = rng.sample(meas_ids(), 2)
                 if b in exponents:
                     b, x = x, b
-                if b not in exponents:
+                if b not in exponents and x not in frozen:
                     if mvals[x] not in (1.0, 2.0, 3.0):
                         ops.append(["set_value", x, rng.choice([2.0, 3.0])])
                         mvals[x] = ops[-1][2]
@@ -213,8 +222,9 @@ def gen_history(rng, n_ops, mc_share=0.25, rational=True, seeds=False):
             elif op == "sub" and rng.random() < 0.12 and len(meas_ids()) >= 2 and n_new < 5:
                 # a singular point: sqrt(a - b) at equal central values (value 0, infinite derivative-method uncertainty)
                 a, b = rng.sample([m for m in meas_ids()], 2)
-                if a in exponents or b in exponents:
+                if a in exponents or b in exponents or b in frozen:
                     continue
+                frozen.update([a, b])        # (a formula whose central value is undefined is outside every property)
                 if mvals[a] != mvals[b]:
                     ops.append(["set_value", b, mvals[a]])
                     mvals[b] = mvals[a]
@@ -224,6 +234,9 @@ def gen_history(rng, n_ops, mc_share=0.25, rational=True, seeds=False):
                 n_new += 1
             elif rng.random() < 0.25:
                 c = ["const", rng.choice([2, 3, 0.5, 1.5])]
+                tag = CL.number_tag(rng, c[1])
+                if tag:
+                    c.append(tag)
                 ops.append(["bin", op, c, ["obj", i]] if rng.random() < 0.5 else ["bin", op, ["obj", i], c])
             elif rng.random() < 0.15:
                 ops.append(["un", "neg", ["obj", i]])
@@ -231,20 +244,29 @@ def gen_history(rng, n_ops, mc_share=0.25, rational=True, seeds=False):
                 # a formula that is undefined on part of the sampled range (the measurement may have an uncertainty as
                 # large as its value): Monte Carlo discards those draws, reads must stay stable all the same
                 ops.append(["un", "sqrt", ["obj", rng.choice(meas_ids())]])
+                frozen.add(ops[-1][2][1])
             else:
                 ops.append(["bin", op, ["obj", i], ["obj", rng.randrange(len(kinds))]])
             kinds.append("der")
             n_new += 1
         elif r < 0.30:
             m = rng.choice(meas_ids())
+            if m in frozen:
+                continue
             ops.append(["set_value", m, rng.choice([1.0, 2.0, 3.0]) if m in exponents else rng.choice(VALS)])
             mvals[m] = ops[-1][2]
+            tag = CL.number_tag(rng, ops[-1][2])
+            if tag:
+                ops[-1].append(tag)            # the number arrives as a numpy scalar / Fraction / bool of the same value
         elif r < 0.38:
             m = rng.choice(meas_ids())
             e = rng.choice(ERRS + [-0.5])
             ops.append(["set_error", m, e])
             if e >= 0:
                 errs[m] = e
+            tag = CL.number_tag(rng, e)
+            if tag:
+                ops[-1].append(tag)
         elif r < 0.46:
             cand = [m for m in meas_ids() if errs[m] > 0]
             if len(cand) >= 2:
@@ -268,7 +290,7 @@ def gen_history(rng, n_ops, mc_share=0.25, rational=True, seeds=False):
         elif r < 0.86:
             ops.append(["recalc", rng.choice(ds)])
         elif r < 0.86 + 0.14 * mc_share * 4 / 4 and rng.random() < mc_share * 4:
-            k = rng.randrange(8)
+            k = rng.randrange(9)
             meth = rng.choice(["derivative", "monte-carlo"])
             form = rng.choice(["str", "enum"])
             if k == 5:
@@ -277,6 +299,8 @@ def gen_history(rng, n_ops, mc_share=0.25, rational=True, seeds=False):
                                        ["mc_setting", d, "mode", rng.choice([None, 0.5, 0.9])],
                                        ["mc_setting", d, "mean"], ["mc_setting", d, "confidence", rng.choice([0.5, 0.8])],
                                        ["mc_setting", d, "xrange", 0.25, 64.0], ["mc_setting", d, "noxrange"]]))
+            elif k == 8:
+                ops.append(["bad_method", rng.choice([None] + ds), rng.choice(["str", "int", "none", "float"])])
             elif k >= 6:
                 # one simulation is kept across method switches: read under Monte Carlo, switch away and back, read again
                 d = rng.choice(ds)
@@ -368,7 +392,8 @@ def coq_obs(o):
 
 def coq_hcase(ops, outs, I):
     scale = max([1.0] + [abs(o[1]) for o in outs if o[0] in ("val", "err", "deriv") and math.isfinite(o[1])])
-    body = coq_list(["({}, {})".format(I(coq_op(op, I)), coq_obs(o)) for op, o in zip(ops, outs) if op[0] != "seed"])
+    body = coq_list(["({}, {})".format(I(coq_op(op, I)), coq_obs(o)) for op, o in zip(ops, outs)
+                     if op[0] not in ("seed", "bad_method")])
     return "({}, {})".format(qlit(Fraction(scale) / 10 ** 9), body)
 
 
@@ -448,7 +473,9 @@ def oracle_history(ops, check_recalc=True, check_methods=True):
             own[op[1]] = op[2]
         elif t == "reset_own":
             own.pop(op[1], None)
-        if check_methods and t in ("set_global", "set_own", "reset_own", "read_value"):
+        if t == "bad_method" and out[0] != "rejected":
+            return "step {} {}: an invalid error method was accepted".format(n, op)
+        if check_methods and t in ("set_global", "set_own", "reset_own", "read_value", "bad_method"):
             for k, kind in enumerate(s.kinds):
                 if kind == "der":
                     eff = s.objs[k].error_method.value
@@ -496,7 +523,7 @@ def determinism_oracle(ops, rng):
     plain = []
     keep = []
     for i, op in enumerate(ops):
-        if op[0] in ("set_global", "set_own", "reset_own", "peek", "set_size", "seed", "mc_setting"):
+        if op[0] in ("set_global", "set_own", "reset_own", "peek", "set_size", "seed", "mc_setting", "bad_method"):
             continue
         plain.append(op)
         keep.append(i)
